@@ -44,6 +44,10 @@ CHECKS = {
    text='Bounded in histories, unbounded in values: ~2000 store/load histories (widths 8/16/32, offsets, constant and symbolic base, overlapping reads), ~600 instruction sequences of length 1..12 compared with the sequential composition of the lifted semantics (each instruction reading its pre-state), rep/repe/repne with concrete counts incl. 0 and the 0x1000 cap. Cross-base aliasing is a fixed obligation family listed as a known finding; sequences are compared under a disjoint-bases premise.',
    note='Trusted: z3, liftvc/den.py. The alias decisions of get_mem_overlapping go through expr_simp and are not proved inductively. Termination is a bounded observation (20 s per history).',
    ref='5 C07'),
+ 'C18': dict(cat='proof', tech='the real mask/decode/encode methods of ppc_arch are executed on a symbolic 32-bit word (proxy that forks on every truth test); uniqueness of the claiming class (3321 pairs) and decode/re-encode identity (82 classes) are z3 validity queries over all 2^32 words; opcode map by closed computation against a hand-written PowerPC table; text round trip bounded',
+   text='Proved for all 2^32 words: no two instruction classes claim the same word; for every class, check(w) implies bin(decode(w)) == w. Complete over 64 primary x 1024 extended opcodes x Rc/LK x field patterns: claiming class and mnemonic vs the PowerPC UISA table, str() total. Bounded over the same enumeration: asm(str(ppc_mn(w))) == w. 48 obligations (wrong/missing names, renderer crashes, conditional-branch text) are known findings.',
+   note='Trusted: z3; the SymWord proxy (CPython runs the real methods identically on it); the S-ppc table in checks/C18.py (words outside it are outside the compared domain).',
+   ref='5 C18'),
 }
 NOT_YET = {}
 ALL = ['C%02d' % i for i in range(1, 20)]
@@ -71,7 +75,7 @@ def main():
         'hooks': {'guard': 'LRGH_MIASMX_VERIF', 'enable': 'unused: contracts are sidecar files under /verif/contracts, /repo is not instrumented',
                   'baseline_off_cmd': BASE_OFF, 'source_commits': [], 'add_only': True},
         'engines': [
-            {'name': 'liftvc', 'path': 'liftvc/', 'serves_properties': ['C04', 'C07', 'C08', 'C05', 'C06', 'C15', 'C16', 'C11'], 'kind_free_text': 'Engine B: IR denotation den() as z3 bit-vectors; equivalence / refinement queries over all machine states'},
+            {'name': 'liftvc', 'path': 'liftvc/', 'serves_properties': ['C04', 'C07', 'C08', 'C18', 'C05', 'C06', 'C15', 'C16', 'C11'], 'kind_free_text': 'Engine B: IR denotation den() as z3 bit-vectors; equivalence / refinement queries over all machine states'},
             {'name': 'pyvc', 'path': 'pyvc/', 'serves_properties': ['C14', 'C05'], 'kind_free_text': 'Engine A: AST -> verification conditions (symbolic execution with callee contracts), z3'},
         ],
         'checks': checks,
